@@ -545,23 +545,32 @@ theorem absVal_scalar {v : PyVal} (hv : isScalar v = true) : ∃ m, absVal v = s
   cases v <;> simp [isScalar] at hv <;> try exact ⟨_, rfl⟩
   rename_i x; cases x <;> simp at hv; exact ⟨_, rfl⟩
 
-/-- `value_compare` on scalars: the host-level ladder (value.py:193-229) and `HostImpl.compare` give the same integer
+theorem scalar_cases {v : PyVal} (hv : isScalar v = true) :
+    v = .none ∨ (∃ b, v = .bool b) ∨ (∃ n, v = .int n) ∨ (∃ q, v = .float (.fin q)) ∨ (∃ s, v = .str s) := by
+  cases v <;> simp [isScalar] at hv <;> simp
+  rename_i x; cases x <;> simp at hv; simp
+
+/-- the value of a partial computation, if any -/
+def okOpt {α : Type} : Except HostExc α → Option α
+  | .ok a => some a
+  | .error _ => none
+
+/-- `value_compare` on scalars: the host-level ladder (value.py:193-229) and `HostImpl.compare?` give the same integer
 (no side condition beyond a positive recursion limit: comparison never rounds) -/
 theorem compare_scalar (F : Libm) (h : Heap) (w : HostImpl.World) (a b : PyVal) (va vb : Value)
     (ha : isScalar a = true) (hb : isScalar b = true) (ea : absVal a = some va) (eb : absVal b = some vb)
     (hL : 0 < F.recLimit) :
-    valueCompare F h a b = .ok (HostImpl.compare w va vb) := by
-  unfold valueCompare HostImpl.compare
+    okOpt (valueCompare F h a b) = HostImpl.compare? w va vb := by
+  unfold valueCompare HostImpl.compare?
   obtain ⟨n, hn⟩ : ∃ n, F.recLimit = n + 1 := ⟨F.recLimit - 1, by omega⟩
-  rw [hn]
-  cases a <;> simp [isScalar] at ha <;> cases b <;> simp [isScalar] at hb <;>
-    simp [absVal] at ea eb <;> (try (rename_i x; cases x <;> simp at ha hb ea eb)) <;>
-    (try (rename_i x _; cases x <;> simp at ha hb ea eb)) <;>
-    subst_vars <;>
-    simp [cmpVal, HostImpl.valueCompare, cmpStr, cmp3, HostImpl.cmpOrd, isNumber, numExact, floatCmpLt, floatCmpEq,
+  have hm : (w.heap.length + 1) * (w.heap.length + 1) + 2 = ((w.heap.length + 1) * (w.heap.length + 1) + 1) + 1 := rfl
+  rw [hn, hm]
+  rcases scalar_cases ha with rfl | ⟨p, rfl⟩ | ⟨i, rfl⟩ | ⟨q, rfl⟩ | ⟨s, rfl⟩ <;>
+    rcases scalar_cases hb with rfl | ⟨p', rfl⟩ | ⟨i', rfl⟩ | ⟨q', rfl⟩ | ⟨s', rfl⟩ <;>
+    simp [absVal] at ea eb <;> subst_vars <;>
+    simp [okOpt, cmpVal, HostImpl.valueCompare, cmpStr, cmp3, HostImpl.cmpOrd, isNumber, numExact, floatCmpLt, floatCmpEq,
       typeName, HostImpl.typeName, HostImpl.boolNat, Rat.intCast_lt_intCast]
-  rename_i p q
-  cases p <;> cases q <;> simp
+  cases p <;> cases p' <;> simp
 
 /-- **the six comparisons on scalars** agree (they are sign tests of the same integer) -/
 theorem refines_host_cmp (F : Libm) (h : Heap) (w : HostImpl.World) (a b : PyVal) (va vb : Value)
@@ -569,8 +578,22 @@ theorem refines_host_cmp (F : Libm) (h : Heap) (w : HostImpl.World) (a b : PyVal
     (hL : 0 < F.recLimit) (op : BinOp) (hop : op = .eq ∨ op = .ne ∨ op = .le ∨ op = .lt ∨ op = .ge ∨ op = .gt) :
     absRes (binopSafe F h op a b) = some (HostImpl.binop op va vb w) := by
   have hc := compare_scalar F h w a b va vb ha hb ea eb hL
-  rcases hop with rfl | rfl | rfl | rfl | rfl | rfl <;>
-    simp [binopSafe, binopWith, binopPy, cmpOp, hc, absRes, absVal, HostImpl.binop]
+  cases hv : valueCompare F h a b with
+  | error e =>
+    -- impossible on scalars: the left side of `hc` would be `none`, the right side is `some _`
+    exfalso
+    rw [hv] at hc
+    obtain ⟨n, hn⟩ : ∃ n, (w.heap.length + 1) * (w.heap.length + 1) + 2 = n + 1 := ⟨_, rfl⟩
+    unfold HostImpl.compare? at hc
+    rw [hn] at hc
+    rcases scalar_cases ha with rfl | ⟨p, rfl⟩ | ⟨i, rfl⟩ | ⟨q, rfl⟩ | ⟨s, rfl⟩ <;>
+      rcases scalar_cases hb with rfl | ⟨p', rfl⟩ | ⟨i', rfl⟩ | ⟨q', rfl⟩ | ⟨s', rfl⟩ <;>
+      simp [absVal] at ea eb <;> subst_vars <;> simp [okOpt, HostImpl.valueCompare] at hc
+  | ok c =>
+    rw [hv] at hc
+    have hc' : HostImpl.compare? w va vb = some c := hc.symm
+    rcases hop with rfl | rfl | rfl | rfl | rfl | rfl <;>
+      simp [binopSafe, binopWith, binopPy, cmpOp, hv, hc', absRes, absVal, HostImpl.binop]
 
 /-- **string concatenation** of a string with a string, null or a boolean (numbers are excluded here: their text goes
 through `float.__repr__` = the abstract `Libm.floatText`; tied by the exec correspondence instead) -/
@@ -581,13 +604,8 @@ theorem refines_host_concat (F : Libm) (h : Heap) (w : HostImpl.World) (s : Stri
   rcases hv with rfl | ⟨b, rfl⟩ | ⟨t, rfl⟩ <;> simp [absVal] at ev <;> subst ev <;>
     constructor <;>
     simp [binopSafe, binopWith, binopPy, isNumber, concatL, concatR, valueString, absRes, absVal, HostImpl.binop,
-      HostImpl.valueString] <;>
+      HostImpl.valueString?] <;>
     (try (cases b <;> simp))
-
-theorem scalar_cases {v : PyVal} (hv : isScalar v = true) :
-    v = .none ∨ (∃ b, v = .bool b) ∨ (∃ n, v = .int n) ∨ (∃ q, v = .float (.fin q)) ∨ (∃ s, v = .str s) := by
-  cases v <;> simp [isScalar] at hv <;> simp
-  rename_i x; cases x <;> simp at hv; simp
 
 /-- **unsupported operand types are null on both sides**: for the arithmetic operators, scalar operands that are not
 both numbers (and, for `+`, neither is a string) -/
